@@ -15,7 +15,7 @@ sys.path.insert(0, os.path.dirname(os.path.abspath(__file__)))
 import symlib
 
 SYMPLER = '/verif/.work/build-hooks/sympler'
-KINDS = ['FDPD', 'LJ', 'ThermostatPetersIso', 'CacheStage', 'CacheStage']
+KINDS = ['FDPD', 'LJ', 'ThermostatPetersIso', 'ThermostatLA', 'CacheStage', 'CacheStage']
 
 
 def gen(rng):
@@ -65,8 +65,13 @@ def gen(rng):
             mods.append(['LJ', {'species1': s1, 'species2': s2, 'sigma': '0.5', 'epsilon': '0.25', 'cutoff': '1'}])
         elif kind == 'ThermostatPetersIso':
             mods.append(['ThermostatPetersIso', {'species1': s1, 'species2': s2, 'weightingFunction': 'wf', 'dissipation': '1', 'kBToverM': '1'}])
+        elif kind == 'ThermostatLA':
+            # Lowe-Andersen thermostat: loops over the free AND the frozen pairs of its species pair
+            i1, i2 = sorted([s1, s2], key=lambda s_: idx[s_])
+            mods.append(['ThermostatLA', {'species1': i1, 'species2': i2, 'cutoff': '1', 'kBToverM': '1', 'probability': '1',
+                                          'particleFactor_i': 'idVec(1)', 'particleFactor_j': 'idVec(1)', 'particleAddend_i': 'idVec(0)', 'particleAddend_j': 'idVec(0)', 'activateAt': '0'}])
         else:
-            mods.append(['ThermostatLA', {'species1': s1, 'species2': s2, 'weightingFunction': 'wf', 'dissipation': '1', 'kBToverM': '1', 'cutoff': '1'}])
+            raise ValueError(kind)
     # every colour pair needs a pair module so that the lists exist
     for i, a in enumerate(species):
         for b in species[i:]:
@@ -78,7 +83,62 @@ def gen(rng):
     return sc, dict(kinds=kinds, nfrozen=nfrozen, nspecies=nsp)
 
 
+def gen_owncut(rng):
+    """C04 / C07 'only inside the own cutoff': the neighbour list reaches further than the module under test (a second module with a
+    larger cutoff on the same species pair); every partner of every particle lies BEYOND the own cutoff but inside the list cutoff.
+    kind 'force': FPairVels with cutoff rc < 1 -> particles at rest must stay at rest.
+    kind 'rho':   ValCalculatorRho (Lucy kernel, cutoff 1, with self contribution) -> the density is the self contribution alone."""
+    kind = rng.choice(['force', 'rho'])
+    n = rng.randint(2, 4)
+    if kind == 'force':
+        rc = rng.choice([F(1, 4), F(1, 2), F(3, 4), F(1, 2)])
+        lo, hi, listcut = rc, F(1), F(1)
+    else:
+        rc, lo, hi, listcut = F(1), F(1), F(2), F(2)
+    # particles on a line along x with gaps in (lo, hi) (dyadic), so that every partner is beyond the own cutoff
+    xs = [F(1, 2)]
+    for _ in range(n - 1):
+        gap = lo + (hi - lo) * F(rng.randint(1, 7), 8)
+        xs.append(xs[-1] + gap)
+    box = 4 if kind == 'force' else 8
+    parts = [{'species': 'A', 'frozen': False, 'r': [symlib.rat(x), '2', '2'], 'v': ['0', '0', '0']} for x in xs if x < box - F(1, 2)]
+    mods = []
+    if kind == 'force':
+        mods.append(['FPairVels', {'species1': 'A', 'species2': 'A', 'cutoff': symlib.rat(rc), 'pairFactor': '8*[rij]'}])
+        mods.append(['FPairVels', {'species1': 'A', 'species2': 'A', 'cutoff': symlib.rat(listcut), 'pairFactor': '0*[rij]'}])
+    else:
+        mods.append(['Lucy', {'name': 'wk', 'cutoff': '1'}])
+        mods.append(['ValCalculatorRho', {'symbol': 'n', 'weightingFunction': 'wk', 'species1': 'A', 'species2': 'A', 'selfContribution': 'yes'}])
+        mods.append(['PairParticleScalar', {'species1': 'A', 'species2': 'A', 'symbol': 'cnt', 'expression': '1', 'cutoff': symlib.rat(listcut), 'symmetry': 1}])
+    sc = {'box': [str(box)] * 3, 'periodic': [True, True, True], 'sim': {'randomize': 'no'}, 'controller': {'dt': '1/64', 'timesteps': 2},
+          'integrators': [['IntegratorVelocityVerlet', {'species': 'A', 'lambda': '1/2', 'mass': '1'}]],
+          'modules': mods, 'particles': parts, 'species_order': ['A'], 'tag_columns': {}}
+    return sc, dict(kinds=['OwnCutoff-' + kind], nfrozen=0, nspecies=1, owncut=kind, gaps=[str(b - a) for a, b in zip(xs, xs[1:])], rc=str(rc))
+
+
+def oracle_owncut(steps, meta):
+    import math
+    bad = []
+    for st in steps:
+        for p in st['particles']:
+            if meta['owncut'] == 'force':
+                if any(x != 0 for x in p['v']):
+                    bad.append(('own-cutoff', 'step %d: particle (slot %d) moves (v = %s) although every partner is beyond the force cutoff %s (gaps %s)'
+                                % (st['step'], p['slot'], [float(x) for x in p['v']], meta['rc'], meta['gaps'])))
+            elif 'n' in p['tag'] and st['step'] >= 0:
+                want = 105.0 / (16.0 * math.pi)          # Lucy self contribution W(0) for cutoff 1
+                got = float(p['tag']['n'][2])
+                if abs(got - want) > 1e-9 * want:
+                    bad.append(('own-cutoff', 'step %d: kernel density of particle (slot %d) is %r, the self contribution alone is %r: a partner beyond the kernel cutoff contributes (gaps %s)'
+                                % (st['step'], p['slot'], got, want, meta['gaps'])))
+        if bad:
+            break
+    return bad
+
+
 def oracle(steps, meta):
+    if meta.get('owncut'):
+        return oracle_owncut(steps, meta)
     bad = []
     first = steps[0]
     fz0 = {(p['colour'], p['slot']): p for p in first['particles'] if p['frozen']}
@@ -124,7 +184,7 @@ def main(argv):
     rng = random.Random(seed)
     summ = dict(seed=seed, cases=0, kinds={}, with_frozen=0, momentum_checked=0, failed_runs=0, violations=[])
     for case in range(n):
-        sc, meta = gen(rng)
+        sc, meta = gen(rng) if case % 4 != 3 else gen_owncut(rng)
         d = os.path.join(work, 'c%d' % case)
         shutil.rmtree(d, ignore_errors=True)
         symlib.write_case(d, sc)
